@@ -181,11 +181,15 @@ func (a *AST) Format(w io.Writer) {
 		case *ImportGroupStmt:
 			fw.NewLine()
 		case *ImportLiteralStmt:
-			if idx < len(a.Stmts)-1 {
-				_, ok := a.Stmts[idx+1].(*ImportLiteralStmt)
-				if !ok {
+			// look at the next statement that is actually written (empty ones are skipped)
+			for next := idx + 1; next < len(a.Stmts); next++ {
+				if a.Stmts[next].Format() == NilIndent {
+					continue
+				}
+				if _, ok := a.Stmts[next].(*ImportLiteralStmt); !ok {
 					fw.NewLine()
 				}
+				break
 			}
 		case *InfoStmt:
 			fw.NewLine()
